@@ -441,9 +441,9 @@ impl BitVector for Bv {
 
 impl Hash for Bv {
     fn hash<H: Hasher>(&self, state: &mut H) {
-        self.len().hash(state);
-        for i in 0..Self::int_len::<u64>(self) {
-            self.get_int::<u64>(i).unwrap().hash(state);
+        match self {
+            Bv::Fixed(b) => b.hash(state),
+            Bv::Dynamic(b) => b.hash(state),
         }
     }
 }
